@@ -151,7 +151,7 @@ func TestWorker(t *testing.T) {
 		if b.Sample == nil && nontrivial && i >= 2 {
 			b.Sample = map[string]any{"case": c, "trace": res.Trace, "fired": res.Fired}
 		}
-		if res.Outcome == "violation" || res.Outcome == "infra" {
+		if res.Outcome == "violation" || res.Outcome == "infra" || (job.Count == 1 && (os.Getenv("VERIF_FULLTRACE") != "" || os.Getenv("VERIF_SELFTEST") != "")) {
 			emit("RESULT", full(res, job.Property))
 			emit("CASE", c)
 		}
